@@ -44,7 +44,9 @@ def check_history(job):
                'duplicate table name/alias accepted',
                # consequences of the non-atomic delete_table (table popped and detached before the KeyError)
                'iteration does not list exactly the contained tables in insertion order', 'positional lookup raised',
-               'positional lookup wrong', 'contained object does not point back to the database'),
+               'positional lookup wrong', 'contained object does not point back to the database',
+               # delete_table returns / unlinks whatever the stale key points to
+               'removed object still points to a database', 'delete returned an object that was not contained'),
         'D23': ('non-validation exception', 'rejected operation changed the state', 'column in the list does not point to its table',
                 'index in the list does not point to its table', 'column points to a table that does not list it',
                 'index points to a table that does not list it'),
